@@ -1,8 +1,481 @@
-/- EmdModel.Options — (stub; filled in by the property that owns it) -/
-import EmdModel.Protocol
+/-
+  EmdModel.Options — how option dictionaries travel down the call chains of the sift variants
+  (property C06).
+
+  Every function of the chain is modelled by (1) Python argument binding against its signature
+  (`call`: positional slots, keywords, defaults, `TypeError` on unknown / duplicate names) and
+  (2) the code's special cases (`if not imf_opts` in `sift`, `if imf_opts is None` in the mask
+  helpers, `envelope_opts is None` in `get_next_imf`, `if not extrema_opts` in `interp_envelope`,
+  `if not loc_pad_opts` / `if not mag_pad_opts` in `get_padded_extrema`), and emits — writer style —
+  the list of `StageCall`s it makes: one record of the fully bound arguments for every call of the
+  three stage functions `get_next_imf`, `interp_envelope`, `get_padded_extrema`, including the calls
+  made inside pool jobs and the noise-only sifts of the complete-ensemble variant.  How many times a
+  record repeats depends on the data; *which* records occur does not.
+
+  Values that are data (signals, noise, amplitudes) are the opaque placeholder `data`.
+-/
+import EmdModel.Config
 
 namespace Options
+open Config
 
-def handle (_o : Protocol.Op) : Option String := none
+/-! ### Python call binding -/
+
+/-- marker default of a parameter without default -/
+def required : Tree := Tree.str "<required>"
+/-- placeholder for array data / computed numbers passed along the chain -/
+def data : Tree := Tree.str "<data>"
+
+def isNone : Tree → Bool
+  | .scalar .none => true
+  | _ => false
+
+/-- Python truthiness of an option value (`not x`) -/
+def falsy : Tree → Bool
+  | .scalar .none => true
+  | .scalar (.bool b) => !b
+  | .scalar (.int i) => i == 0
+  | .scalar (.num r) => r == 0
+  | .scalar (.str s) => s.isEmpty
+  | .seq .array _ => false          -- `not ndarray` is not a plain truth test; never reached with option dicts
+  | .seq _ .nil => true
+  | .seq _ _ => false
+  | .dict .nil => true
+  | .dict _ => false
+
+/-- `**t` : the mapping's items -/
+def unpack : Tree → Except Err Assoc
+  | .dict a => .ok a
+  | _ => .error .typeError
+
+/-- defaults overridden by the supplied keywords, in signature order -/
+def resolve : Assoc → Assoc → Assoc
+  | .nil, _ => .nil
+  | .cons p d r, kw => .cons p (match kw.lookup p with | some v => v | none => d) (resolve r kw)
+
+/-- positional arguments bound to the leading parameters -/
+def zipPos : Assoc → List Tree → Option Assoc
+  | _, [] => some .nil
+  | .nil, _ :: _ => none
+  | .cons p _ r, v :: vs => (zipPos r vs).map (.cons p v ·)
+
+def noDup : List Key → Bool
+  | [] => true
+  | x :: xs => !(xs.contains x) && noDup xs
+
+def isRequired : Tree → Bool
+  | .scalar (.str s) => s == "<required>".toList
+  | _ => false
+
+/-- every parameter without default is bound -/
+def noMissing : Assoc → Assoc → Bool
+  | .nil, _ => true
+  | .cons p d r, all => (!isRequired d || all.contains p) && noMissing r all
+
+/-- all names known, no name bound twice, nothing required left unbound -/
+def validCall (sig all : Assoc) : Bool :=
+  all.keys.all (fun q => sig.contains q) && noDup all.keys && noMissing sig all
+
+def callWith (sig all : Assoc) : Except Err Assoc :=
+  if validCall sig all then .ok (resolve sig all) else .error .typeError
+
+/-- `f(*pos, **kw)` against the signature `sig` (without the leading data parameter): the bound
+    arguments with defaults applied, or `TypeError` (too many positionals, unknown keyword,
+    multiple values for one parameter, missing required parameter). -/
+def call (sig : Assoc) (pos : List Tree) (kw : Assoc) : Except Err Assoc :=
+  match zipPos sig pos with
+  | none => .error .typeError
+  | some b => callWith sig (b.append kw)
+
+/-- the bound value of parameter `p` -/
+def arg (a : Assoc) (p : String) : Tree := (a.lookup p.toList).getD Tree.none
+
+/-! ### signatures (constants of the model; compared with the live signatures on every run) -/
+
+def f (n d : Nat) : Tree := .scalar (.num (mkRat n d))
+def i (n : Int) : Tree := .scalar (.int n)
+def s (x : String) : Tree := Tree.str x
+def b (x : Bool) : Tree := .scalar (.bool x)
+def none' : Tree := Tree.none
+
+def mk : List (String × Tree) → Assoc
+  | [] => .nil
+  | (p, d) :: r => .cons p.toList d (mk r)
+
+def f0_1 : Tree := f 3602879701896397 36028797018963968       -- 0.1
+def f0_05 : Tree := f 3602879701896397 72057594037927936      -- 0.05
+def f0_2 : Tree := f 3602879701896397 18014398509481984       -- 0.2
+def f1em8 : Tree := f 3022314549036573 302231454903657293676544  -- 1e-08
+
+def rillingDefault : Tree := .seq .tuple (.cons f0_05 (.cons (f 1 2) (.cons f0_05 .nil)))
+
+def gniSig : Assoc := mk [("env_step_size", i 1), ("max_iters", i 1000), ("energy_thresh", none'),
+  ("stop_method", s "sd"), ("sd_thresh", f0_1), ("rilling_thresh", rillingDefault),
+  ("envelope_opts", none'), ("extrema_opts", none')]
+def ieSig : Assoc := mk [("mode", s "upper"), ("interp_method", s "splrep"), ("extrema_opts", none'),
+  ("ret_extrema", b false)]
+def gpeSig : Assoc := mk [("pad_width", i 2), ("mode", s "peaks"), ("parabolic_extrema", b false),
+  ("loc_pad_opts", none'), ("mag_pad_opts", none')]
+def siftSig : Assoc := mk [("sift_thresh", f1em8), ("max_imfs", none'), ("verbose", none'),
+  ("imf_opts", none'), ("envelope_opts", none'), ("extrema_opts", none')]
+def swnSig : Assoc := mk [("noise_scaling", none'), ("noise", none'), ("noise_mode", s "single"),
+  ("sift_thresh", f1em8), ("max_imfs", none'), ("job_ind", i 1),
+  ("imf_opts", none'), ("envelope_opts", none'), ("extrema_opts", none')]
+def ensSig : Assoc := mk [("nensembles", i 4), ("ensemble_noise", f0_2), ("noise_mode", s "single"),
+  ("nprocesses", i 1), ("sift_thresh", f1em8), ("max_imfs", none'), ("verbose", none'),
+  ("imf_opts", none'), ("envelope_opts", none'), ("extrema_opts", none')]
+def gnimSig : Assoc := mk [("z", required), ("amp", required), ("nphases", i 4), ("nprocesses", i 1),
+  ("imf_opts", none'), ("envelope_opts", none'), ("extrema_opts", none')]
+def gmfSig : Assoc := mk [("first_mask_mode", s "zc"), ("imf_opts", none'),
+  ("envelope_opts", none'), ("extrema_opts", none')]
+def gmfSigLegacy : Assoc := mk [("first_mask_mode", s "zc"), ("imf_opts", none')]
+def maskSig : Assoc := mk [("mask_amp", i 1), ("mask_amp_mode", s "ratio_imf"), ("mask_freqs", s "zc"),
+  ("mask_step_factor", i 2), ("ret_mask_freq", b false), ("max_imfs", i 9), ("sift_thresh", f1em8),
+  ("nphases", i 4), ("nprocesses", i 1), ("verbose", none'),
+  ("imf_opts", none'), ("envelope_opts", none'), ("extrema_opts", none')]
+
+/-- the special-case literals written inside the functions -/
+def siftImfLiteral : Tree := .dict (mk [("env_step_size", i 1), ("sd_thresh", f0_1)])
+def ieExtremaLiteral : Tree := .dict (mk [("pad_width", i 2), ("loc_pad_opts", none'), ("mag_pad_opts", none')])
+def gpeLocLiteral : Tree := .dict (mk [("mode", s "reflect"), ("reflect_type", s "odd")])
+def gpeMagLiteral : Tree := .dict (mk [("mode", s "median"), ("stat_length", i 1)])
+
+/-! ### stage calls -/
+
+inductive Stage
+  | gni | ie | gpe
+  deriving DecidableEq
+
+structure StageCall where
+  stage : Stage
+  args : Assoc        -- every parameter (except the data) with its bound value, signature order
+
+/-- `get_padded_extrema(X, **kw)` -/
+def gpeM (kw : Assoc) : Except Err (List StageCall) := do
+  let a ← call gpeSig [] kw
+  pure [⟨.gpe, a⟩]
+
+def interpMethods : List Key := ["splrep".toList, "mono_pchip".toList, "pchip".toList]
+
+def okMethod : Tree → Bool
+  | .scalar (.str m) => interpMethods.contains m
+  | _ => false
+
+/-- which extrema an envelope mode asks for -/
+def gpeMode : Tree → Except Err Tree
+  | .scalar (.str m) =>
+    if m = "upper".toList then .ok (s "peaks")
+    else if m = "lower".toList then .ok (s "troughs")
+    else if m = "combined".toList then .ok (s "abs_peaks")
+    else .error .valueError
+  | _ => .error .valueError
+
+/-- `if not extrema_opts: extrema_opts = {literal}` -/
+def extremaOrLiteral (xo : Tree) : Tree := if falsy xo then ieExtremaLiteral else xo
+/-- `if envelope_opts is None: envelope_opts = {}` -/
+def noneToEmpty (t : Tree) : Tree := if isNone t then Tree.dict .nil else t
+/-- `if not imf_opts: imf_opts = {literal}` -/
+def imfOrLiteral (io : Tree) : Tree := if falsy io then siftImfLiteral else io
+
+/-- `interp_envelope(X, **kw)` -/
+def ieM (kw : Assoc) : Except Err (List StageCall) := do
+  let a ← call ieSig [] kw
+  if !okMethod (arg a "interp_method") then .error .valueError else
+  let mode ← gpeMode (arg a "mode")
+  let xoKw ← unpack (extremaOrLiteral (arg a "extrema_opts"))
+  let g ← call gpeSig [] (.cons "mode".toList mode xoKw)
+  pure [⟨.ie, a⟩, ⟨.gpe, g⟩]
+
+/-- the keywords of `interp_envelope(proto_imf, mode=m, **envelope_opts, extrema_opts=extrema_opts)` -/
+def ieKw (m : String) (eoKw : Assoc) (xo : Tree) : Assoc :=
+  .cons "mode".toList (s m) (eoKw.append (.cons "extrema_opts".toList xo .nil))
+
+/-- `get_next_imf(X, *pos, **kw)` -/
+def gniM (pos : List Tree) (kw : Assoc) : Except Err (List StageCall) := do
+  let a ← call gniSig pos kw
+  let eoKw ← unpack (noneToEmpty (arg a "envelope_opts"))
+  let up ← ieM (ieKw "upper" eoKw (arg a "extrema_opts"))
+  let lo ← ieM (ieKw "lower" eoKw (arg a "extrema_opts"))
+  pure (⟨.gni, a⟩ :: up ++ lo)
+
+/-- `get_next_imf(X, envelope_opts=eo, extrema_opts=xo, **ioKw)` : how every variant reaches the stages -/
+def chain (ioKw : Assoc) (eo xo : Tree) : Except Err (List StageCall) :=
+  gniM [] (.cons "envelope_opts".toList eo (.cons "extrema_opts".toList xo ioKw))
+
+/-- `sift(X, *pos, **kw)` -/
+def siftM (pos : List Tree) (kw : Assoc) : Except Err (List StageCall) := do
+  let a ← call siftSig pos kw
+  let ioKw ← unpack (imfOrLiteral (arg a "imf_opts"))
+  chain ioKw (arg a "envelope_opts") (arg a "extrema_opts")
+
+/-- `_sift_with_noise(X, *pos, **kw)`: one sift (`single`) or two sifts with the same options (`flip`) -/
+def swnM (pos : List Tree) (kw : Assoc) : Except Err (List StageCall) := do
+  let a ← call swnSig pos kw
+  siftM [] (mk [("sift_thresh", arg a "sift_thresh"), ("max_imfs", arg a "max_imfs"),
+    ("imf_opts", arg a "imf_opts"), ("envelope_opts", arg a "envelope_opts"),
+    ("extrema_opts", arg a "extrema_opts")])
+
+def noiseModes : List Key := ["single".toList, "flip".toList]
+
+def okNoiseMode : Tree → Bool
+  | .scalar (.str m) => noiseModes.contains m
+  | _ => false
+
+/-- `ensemble_sift(X, **kw)`: every pool job is `_sift_with_noise(*args)` with ten positionals -/
+def ensM (kw : Assoc) : Except Err (List StageCall) := do
+  let a ← call ensSig [] kw
+  if !okNoiseMode (arg a "noise_mode") then .error .valueError else
+  swnM [data, none', arg a "noise_mode", arg a "sift_thresh", arg a "max_imfs", data,
+        arg a "imf_opts", arg a "envelope_opts", arg a "extrema_opts"] .nil
+
+/-- `complete_ensemble_sift(X, **kw)`: the ensemble jobs, then the noise-only sifts, which receive the
+    three option dictionaries in their own slots (`verbose` is passed as `None`). -/
+def cesM (kw : Assoc) : Except Err (List StageCall) := do
+  let a ← call ensSig [] kw
+  let jobs ← swnM [data, data, arg a "noise_mode", arg a "sift_thresh", i 1, data,
+        arg a "imf_opts", arg a "envelope_opts", arg a "extrema_opts"] .nil
+  let noise ← siftM [arg a "sift_thresh", i 1, none', arg a "imf_opts", arg a "envelope_opts",
+        arg a "extrema_opts"] .nil
+  pure (jobs ++ noise)
+
+/-- as pinned (D5): the noise-only sifts were called `sift(noise, sift_thresh, 1, imf_opts)` -/
+def cesMLegacy (kw : Assoc) : Except Err (List StageCall) := do
+  let a ← call ensSig [] kw
+  let jobs ← swnM [data, data, arg a "noise_mode", arg a "sift_thresh", i 1, data,
+        arg a "imf_opts", arg a "envelope_opts", arg a "extrema_opts"] .nil
+  let noise ← siftM [arg a "sift_thresh", i 1, arg a "imf_opts"] .nil
+  pure (jobs ++ noise)
+
+/-- `get_next_imf_mask(X, *pos, **kw)`: each pool job is
+    `partial(get_next_imf, envelope_opts=…, extrema_opts=…, **imf_opts)(X + mask)` -/
+def gnimM (pos : List Tree) (kw : Assoc) : Except Err (List StageCall) := do
+  let a ← call gnimSig pos kw
+  let ioKw ← unpack (noneToEmpty (arg a "imf_opts"))
+  chain ioKw (arg a "envelope_opts") (arg a "extrema_opts")
+
+/-- as pinned (D5): `partial(get_next_imf, **imf_opts)` -/
+def gnimMLegacy (pos : List Tree) (kw : Assoc) : Except Err (List StageCall) := do
+  let a ← call gnimSig pos kw
+  let ioKw ← unpack (noneToEmpty (arg a "imf_opts"))
+  gniM [] ioKw
+
+def usesFirstImf (mode : Tree) : Bool :=
+  match mode with
+  | .scalar (.str m) => m = "zc".toList || m = "if".toList
+  | _ => false
+
+/-- `get_mask_freqs(X, *pos, **kw)`: a first IMF is extracted only for the 'zc' / 'if' modes -/
+def gmfM (pos : List Tree) (kw : Assoc) : Except Err (List StageCall) := do
+  let a ← call gmfSig pos kw
+  let ioKw ← unpack (noneToEmpty (arg a "imf_opts"))
+  if usesFirstImf (arg a "first_mask_mode") then chain ioKw (arg a "envelope_opts") (arg a "extrema_opts")
+  else pure []
+
+/-- as pinned (D5): `get_next_imf(X, **imf_opts)` -/
+def gmfMLegacy (pos : List Tree) (kw : Assoc) : Except Err (List StageCall) := do
+  let a ← call gmfSigLegacy pos kw
+  let ioKw ← unpack (noneToEmpty (arg a "imf_opts"))
+  if usesFirstImf (arg a "first_mask_mode") then gniM [] ioKw else pure []
+
+/-- does `mask_sift` derive the mask frequencies itself (string method or float)? -/
+def derivesMaskFreqs (mf : Tree) : Bool :=
+  match mf with
+  | .seq _ _ => false
+  | .scalar (.str m) => m = "zc".toList || m = "if".toList
+  | .scalar (.num _) => true
+  | _ => false
+
+/-- `mask_sift(X, **kw)` -/
+def maskFirst (mf io eo xo : Tree) : Except Err (List StageCall) :=
+  if derivesMaskFreqs mf then
+    gmfM [mf] (mk [("imf_opts", io), ("envelope_opts", eo), ("extrema_opts", xo)])
+  else pure []
+
+def maskM (kw : Assoc) : Except Err (List StageCall) := do
+  let a ← call maskSig [] kw
+  let first ← maskFirst (arg a "mask_freqs") (arg a "imf_opts") (arg a "envelope_opts") (arg a "extrema_opts")
+  let rest ← gnimM [data, data] (mk [("nphases", arg a "nphases"), ("nprocesses", arg a "nprocesses"),
+        ("imf_opts", arg a "imf_opts"), ("envelope_opts", arg a "envelope_opts"),
+        ("extrema_opts", arg a "extrema_opts")])
+  pure (first ++ rest)
+
+def maskMLegacy (kw : Assoc) : Except Err (List StageCall) := do
+  let a ← call maskSig [] kw
+  let first ← if derivesMaskFreqs (arg a "mask_freqs") then
+      gmfMLegacy [arg a "mask_freqs"] (mk [("imf_opts", arg a "imf_opts")])
+    else pure []
+  let rest ← gnimMLegacy [data, data] (mk [("nphases", arg a "nphases"), ("nprocesses", arg a "nprocesses"),
+        ("imf_opts", arg a "imf_opts"), ("envelope_opts", arg a "envelope_opts"),
+        ("extrema_opts", arg a "extrema_opts")])
+  pure (first ++ rest)
+
+/-! ### variants, delivery routes -/
+
+inductive Variant
+  | sift | ensemble | complete | mask
+  | nextImfMask           -- get_next_imf_mask(X, z, amp, …)
+  | maskFreqs             -- get_mask_freqs(X, …)
+  | nextImf               -- get_next_imf(X, …) itself
+  | second (inner : Variant)      -- sift_second_layer(IA, sift_func=inner, sift_args=kw)
+  deriving DecidableEq
+
+def Variant.name : Variant → String
+  | .sift => "sift" | .ensemble => "ensemble_sift" | .complete => "complete_ensemble_sift"
+  | .mask => "mask_sift" | .nextImfMask => "get_next_imf_mask" | .maskFreqs => "get_mask_freqs"
+  | .nextImf => "get_next_imf" | .second _ => "sift_second_layer"
+
+/-- `variant(X, **kw)` (for the two helpers the data positionals are supplied) -/
+def runVariant (legacy : Bool) : Variant → Assoc → Except Err (List StageCall)
+  | .sift, kw => siftM [] kw
+  | .ensemble, kw => ensM kw
+  | .complete, kw => if legacy then cesMLegacy kw else cesM kw
+  | .mask, kw => if legacy then maskMLegacy kw else maskM kw
+  | .nextImfMask, kw => if legacy then gnimMLegacy [data, data] kw else gnimM [data, data] kw
+  | .maskFreqs, kw => if legacy then gmfMLegacy [] kw else gmfM [] kw
+  | .nextImf, kw => gniM [] kw
+  | .second inner, kw => runVariant legacy inner kw      -- `sift_func(IA[:, ii], **sift_args)`
+
+/-- what the user supplies: some top-level keywords and, per stage, a partial dictionary or nothing -/
+structure User where
+  top : Assoc
+  imf : Option Assoc
+  env : Option Assoc
+  ext : Option Assoc
+
+def optEntry (name : String) : Option Assoc → Assoc
+  | none => .nil
+  | some a => .cons name.toList (.dict a) .nil
+
+/-- route A — keyword dictionaries: `variant(X, **top, imf_opts={…}, envelope_opts={…}, extrema_opts={…})` -/
+def kwargsDirect (u : User) : Assoc :=
+  u.top.append ((optEntry "imf_opts" u.imf).append ((optEntry "envelope_opts" u.env).append (optEntry "extrema_opts" u.ext)))
+
+/-- the signatures `get_config` inspects, as the model knows them -/
+def modelSigs : Sigs where
+  gpe := gpeSig
+  ie := ieSig
+  gni := gniSig
+  variant nm :=
+    if nm = "sift".toList then some siftSig
+    else if nm = "ensemble_sift".toList then some ensSig
+    else if nm = "complete_ensemble_sift".toList then some ensSig
+    else if nm = "mask_sift".toList then some maskSig
+    else none
+
+/-- `for key, v in opts.items(): cfg[prefix + key] = v` -/
+def editAll (prefix_ : Key) : Tree → Assoc → Except Err Tree
+  | store, .nil => .ok store
+  | store, .cons p v r => do
+      let st ← cfgSet store (prefix_ ++ p) v
+      editAll prefix_ st r
+
+def editStage (store : Tree) (name : String) : Option Assoc → Except Err Tree
+  | none => .ok store
+  | some a => editAll (name.toList ++ ['/']) store a
+
+/-- routes B and C — `cfg = get_config(variant)`, edited through key paths, then
+    `variant(X, **cfg)` or `cfg.get_func()(X)`: the keyword arguments are the edited store -/
+def kwargsConfig (v : Variant) (u : User) : Except Err Assoc := do
+  let cfg ← getConfig modelSigs v.name.toList
+  let st ← editAll [] cfg.store u.top
+  let st ← editStage st "imf_opts" u.imf
+  let st ← editStage st "envelope_opts" u.env
+  let st ← editStage st "extrema_opts" u.ext
+  unpack st
+
+inductive Route
+  | direct | unpackCfg | getFunc
+  deriving DecidableEq
+
+/-- `functools.partial(func, **store)(X)` : the partial's keywords followed by the call's (none) -/
+def partialCall (kw : Assoc) : Assoc := kw.append .nil
+
+def baseVariant : Variant → Variant
+  | .second inner => baseVariant inner
+  | v => v
+
+/-- the stage calls made by one top-level call of `v` with the user's options delivered by route `r` -/
+def emit (legacy : Bool) (r : Route) (v : Variant) (u : User) : Except Err (List StageCall) := do
+  let kw ← match r with
+    | .direct => pure (kwargsDirect u)
+    | .unpackCfg => kwargsConfig (baseVariant v) u
+    | .getFunc => (kwargsConfig (baseVariant v) u).map partialCall
+  runVariant legacy v kw
+
+/-! ### the options a stage actually works with -/
+
+def eraseKeys (ks : List String) (a : Assoc) : Assoc := ks.foldl (fun acc p => acc.erase p.toList) a
+
+def normPad (lit : Tree) (v : Tree) : Tree := if falsy v then lit else v
+
+/-- `get_padded_extrema` replaces falsy `loc_pad_opts` / `mag_pad_opts` by its literals -/
+def gpeEffective : Assoc → Assoc
+  | .nil => .nil
+  | .cons p v r =>
+    if p = "loc_pad_opts".toList then .cons p (normPad gpeLocLiteral v) (gpeEffective r)
+    else if p = "mag_pad_opts".toList then .cons p (normPad gpeMagLiteral v) (gpeEffective r)
+    else .cons p v (gpeEffective r)
+
+/-- the stage's OWN options as it uses them: pass-through dictionaries removed, in-function
+    special cases applied -/
+def effective (c : StageCall) : StageCall :=
+  match c.stage with
+  | .gni => ⟨.gni, eraseKeys ["envelope_opts", "extrema_opts"] c.args⟩
+  | .ie => ⟨.ie, eraseKeys ["extrema_opts"] c.args⟩
+  | .gpe => ⟨.gpe, gpeEffective c.args⟩
+
+/-! ### protocol -/
+
+def parseVariant? : String → Option Variant
+  | "sift" => some .sift
+  | "ensemble_sift" => some .ensemble
+  | "complete_ensemble_sift" => some .complete
+  | "mask_sift" => some .mask
+  | "get_next_imf_mask" => some .nextImfMask
+  | "get_mask_freqs" => some .maskFreqs
+  | "get_next_imf" => some .nextImf
+  | _ => none
+
+def parseOpt? (o : Protocol.Op) (key : String) : Option (Option Assoc) :=
+  match (o.str? key) >>= parseTree? with
+  | some (.scalar .none) => some none
+  | some (.dict a) => some (some a)
+  | _ => none
+
+def stageRecords (st : Stage) (cs : List StageCall) : Tree :=
+  .seq .list (TreeList.ofList ((cs.filter (·.stage = st)).map fun c => .dict c.args))
+
+def allSigs : Tree :=
+  .dict (mk [("get_next_imf", .dict gniSig), ("interp_envelope", .dict ieSig), ("get_padded_extrema", .dict gpeSig),
+    ("sift", .dict siftSig), ("_sift_with_noise", .dict swnSig), ("ensemble_sift", .dict ensSig),
+    ("complete_ensemble_sift", .dict ensSig), ("get_next_imf_mask", .dict gnimSig),
+    ("get_mask_freqs", .dict gmfSig), ("mask_sift", .dict maskSig)])
+
+open Protocol in
+def handle (o : Op) : Option String :=
+  match o.name with
+  | "OPTS" => some <| Id.run do
+      let some vn := o.str? "variant" | return "bad-op"
+      let some v0 := parseVariant? vn | return "bad-op"
+      let some second := o.nat? "second" | return "bad-op"
+      let some legacy := o.nat? "legacy" | return "bad-op"
+      let some rt := o.str? "route" | return "bad-op"
+      let some (.dict top) := (o.str? "top") >>= parseTree? | return "bad-op"
+      let some imf := parseOpt? o "imf" | return "bad-op"
+      let some env := parseOpt? o "env" | return "bad-op"
+      let some ext := parseOpt? o "ext" | return "bad-op"
+      let r ← match rt with
+        | "direct" => pure Route.direct
+        | "unpack" => pure Route.unpackCfg
+        | "get_func" => pure Route.getFunc
+        | _ => return "bad-op"
+      let v := if second != 0 then Variant.second v0 else v0
+      match emit (legacy != 0) r v { top, imf, env, ext } with
+      | .error e => return s!"err {e.name}"
+      | .ok cs =>
+        let eff := cs.map effective
+        return s!"ok gni={fmtTree (stageRecords .gni cs)} ie={fmtTree (stageRecords .ie cs)} gpe={fmtTree (stageRecords .gpe cs)} egni={fmtTree (stageRecords .gni eff)} eie={fmtTree (stageRecords .ie eff)} egpe={fmtTree (stageRecords .gpe eff)}"
+  | "OPTSIGS" => some s!"ok sigs={fmtTree allSigs} lits={fmtTree (.seq .list (TreeList.ofList [siftImfLiteral, ieExtremaLiteral, gpeLocLiteral, gpeMagLiteral]))}"
+  | _ => none
 
 end Options
